@@ -12,4 +12,4 @@ NOTES = ("Technique family: machine-checked proof in Lean 4. Each check = kernel
 NOT_APPLICABLE = {}
 
 # properties whose check exists but is being adapted right now (not claimed in MANIFEST until it is green again)
-PENDING = {k: "check built and merged (Lean model + theorems + harness); known-finding attribution being finalised; not claimed until green" for k in ("C10",)}
+PENDING = {}
